@@ -6,6 +6,7 @@ track and every event). No contracts are installed here, so nothing can change w
 """
 from __future__ import annotations
 
+import os
 import re
 
 from vmon import gen, harness, model
@@ -49,7 +50,8 @@ def required(tier):
 
 def shards(tier, seed):
     n = 16 if tier == "quick" else 64
-    return [{"name": f"fuzz-{i}", "count": 1500 if tier == "quick" else 30000} for i in range(n)]
+    return [{"name": f"fuzz-{i}", "count": 1500 if tier == "quick" else 30000} for i in range(n)] + \
+        [{"name": "batch-0", "kind": "batch", "count": 0}]
 
 
 _DIG = re.compile(r"\d{9,}")
@@ -255,8 +257,63 @@ def extremes():
     return out
 
 
+def batch_validator(rec, seed) -> None:
+    """A batch validator: hundreds of files read by path, most of them rejected, the exception objects KEPT for the report (their
+    tracebacks keep the frames of the failed reads alive), in a process whose descriptor limit is what a service manager grants (64).
+    Arbitrary text must then still either parse or be refused with a documented error - not with OSError 'too many open files'."""
+    import resource
+    import shutil
+    import tempfile
+
+    d = tempfile.mkdtemp(prefix="vmon-c18-batch-")
+    soft, hard = resource.getrlimit(resource.RLIMIT_NOFILE)
+    kept = []
+    try:
+        good = gen.gen_chart(harness.rng_for(seed, ID, "batch", 0), "realistic", n_tracks=1, n_groups=5, n_globals=2, newline="\n")["text"]
+        bads = ["oops\n" + good, good.replace("[SyncTrack]", "[SyncTrak]"), good.replace("Resolution", "Rezolution"), good.replace("= B ", "= B 0"), "", "[Song]\n{\n"]
+        paths = []
+        for k, t in enumerate([good] + bads):
+            p_ = os.path.join(d, f"c{k}.chart")
+            with open(p_, "w", encoding="utf-8") as f:
+                f.write(t)
+            paths.append(p_)
+        resource.setrlimit(resource.RLIMIT_NOFILE, (min(64, soft), hard))
+        n_open0 = len(os.listdir("/proc/self/fd")) if os.path.isdir("/proc/self/fd") else -1
+        for r in range(260):
+            p_ = paths[1 + r % len(bads)]
+            rec.ev()
+            try:
+                harness.Chart.from_filepath(p_ if r % 2 else __import__("pathlib").Path(p_))
+            except harness.ALLOWED_ERRORS as e:
+                kept.append(e)
+                rec.cls("batch:rejected_with_a_documented_error")
+            except Exception as e:  # noqa
+                rec.violation("leak", f"file #{r} of a batch read by path (earlier exceptions kept by the caller, descriptor limit 64): {harness.exc_str(e)} escaped",
+                              {"kind": "batch", "text": "", "r": r}, f"batch-by-path:{type(e).__name__}")
+                return
+            if r % 40 == 39:
+                rec.ev()
+                try:
+                    harness.Chart.from_filepath(paths[0])
+                except Exception as e:  # noqa
+                    rec.violation("leak", f"after {r + 1} rejected files of a batch (exceptions kept, descriptor limit 64) a well-formed chart read by path fails with "
+                                  f"{harness.exc_str(e)}", {"kind": "batch", "text": good, "r": r}, f"batch-by-path:{type(e).__name__}")
+                    return
+        if n_open0 >= 0:
+            rec.mx("open_descriptors_gained_over_260_rejected_by_path_reads", float(len(os.listdir("/proc/self/fd")) - n_open0))
+        rec.cls("batch_of_260_rejected_files_with_exceptions_kept_under_a_descriptor_limit_of_64")
+    finally:
+        resource.setrlimit(resource.RLIMIT_NOFILE, (soft, hard))
+        kept.clear()
+        shutil.rmtree(d, ignore_errors=True)
+
+
 def run_shard(shard, rec, tier, seed):
     harness.setup(with_contracts=False)
+    if shard.get("kind") == "batch":
+        batch_validator(rec, seed)
+        harness.finish(rec)
+        return
     base = None
     if shard["name"].endswith("-0"):
         for text in extremes():
@@ -297,5 +354,9 @@ def finalize(agg, tier):
 
 
 def replay(case, rec):
+    if case.get("kind") == "batch":
+        harness.setup(with_contracts=False)
+        batch_validator(rec, 0)
+        return
     harness.setup(with_contracts=False)
     judge(rec, case["text"], "replay", [tuple(p) for p in case["sel"]] if case.get("sel") is not None else None)
